@@ -379,7 +379,13 @@ func (l *lay) eol() {
 				l.f("line:blank")
 			}
 		case x < 70:
-			l.put(strings.Repeat(" ", l.r.Intn(12)) + "// " + l.commentText())
+			// every spelling of a line comment, doc-comment look-alikes included (///, ////, //!)
+			lead := []string{"// ", "// ", "//", "/// ", "///", "//// ", "//! ", "//-- "}[l.r.Intn(8)]
+			ind := strings.Repeat(" ", l.r.Intn(12))
+			if l.r.Intn(3) == 0 {
+				ind = ""
+			}
+			l.put(ind + lead + l.commentText())
 			l.f("line:line-comment")
 		case x < 90:
 			l.put(strings.Repeat(" ", l.r.Intn(12)) + "/* " + strings.ReplaceAll(l.commentText(), "*/", "* /") + " */")
